@@ -19,15 +19,17 @@ def build(exp_dir, index_path, crate_dir, target_dir):
     for e in index:
         k = e["k"]
         m = "crate::d%d" % k
-        lines.append("    pub mod p%d {\n        use super::*;\n        type ContB = CGlueObjContainer<CBox<'static, c_void>, NoContext, %s::TRetTmp<NoContext>>;\n"
-                     "        type ContA = CGlueObjContainer<CBox<'static, c_void>, CArc<c_void>, %s::TRetTmp<CArc<c_void>>>;\n"
-                     "        type ContR = CGlueObjContainer<&'static c_void, NoContext, %s::TRetTmp<NoContext>>;\n"
-                     "        type ContM = CGlueObjContainer<&'static mut c_void, NoContext, %s::TRetTmp<NoContext>>;\n"
-                     "        extern \"C\" {\n            pub fn probe_box(v: &%s::TVtbl<'static, ContB>, o: %s::TBox<'static>);\n"
-                     "            pub fn probe_arc(v: &%s::TVtbl<'static, ContA>, o: %s::TArcBox<'static>);\n"
-                     "            pub fn probe_ref(v: &%s::TVtbl<'static, ContR>, o: %s::TRef<'static>);\n"
-                     "            pub fn probe_mut(v: &%s::TVtbl<'static, ContM>, o: %s::TMut<'static>);\n        }\n    }"
-                     % (k, m, m, m, m, m, m, m, m, m, m, m, m))
+        # a trait with an unwrapped associated type: vtable and aliases are generic over it (instantiated with u64)
+        ga = ", u64" if (e.get("d") or {}).get("arg") in ("aval", "aref", "aslice", "aopt", "ares") else ""
+        lines.append("    pub mod p%d {\n        use super::*;\n        type ContB = CGlueObjContainer<CBox<'static, c_void>, NoContext, %s::TRetTmp<NoContext%s>>;\n"
+                     "        type ContA = CGlueObjContainer<CBox<'static, c_void>, CArc<c_void>, %s::TRetTmp<CArc<c_void>%s>>;\n"
+                     "        type ContR = CGlueObjContainer<&'static c_void, NoContext, %s::TRetTmp<NoContext%s>>;\n"
+                     "        type ContM = CGlueObjContainer<&'static mut c_void, NoContext, %s::TRetTmp<NoContext%s>>;\n"
+                     "        extern \"C\" {\n            pub fn probe_box(v: &%s::TVtbl<'static, ContB%s>, o: %s::TBox<'static%s>);\n"
+                     "            pub fn probe_arc(v: &%s::TVtbl<'static, ContA%s>, o: %s::TArcBox<'static%s>);\n"
+                     "            pub fn probe_ref(v: &%s::TVtbl<'static, ContR%s>, o: %s::TRef<'static%s>);\n"
+                     "            pub fn probe_mut(v: &%s::TVtbl<'static, ContM%s>, o: %s::TMut<'static%s>);\n        }\n    }"
+                     % (k, m, ga, m, ga, m, ga, m, ga, m, ga, m, ga, m, ga, m, ga, m, ga, m, ga, m, ga, m, ga))
     lines.append("}")
     open(os.path.join(crate_dir, "src", "lib.rs"), "w").write("\n".join(lines) + "\n")
     open(os.path.join(crate_dir, "Cargo.toml"), "w").write('[package]\nname = "lintcrate"\nversion = "0.0.0"\nedition = "2018"\n\n[workspace]\n\n[dependencies]\ncglue = { path = "/repo/cglue" }\n')
